@@ -38,6 +38,10 @@ claim('C14',
       'The real flatten_mapping / construct_mapping / construct_yaml_set / omap / pairs are executed on node graphs whose shape is chosen by solver variables: a top mapping of 2 (3) entries of 11 kinds (plain and duplicate keys, single merges, list merges in both orders, repeated merge keys, quoted <<, = key, ill-shaped merge values, unhashable key), a merge source with 2 entries of 4 kinds including a nested merge, a sibling mapping sharing that source, the source also constructed on its own in 3 orders. The result is compared with a non-mutating reference evaluator of the YAML 1.1 merge rules; set/omap/pairs nodes of 8 shapes each; every cell closes its path tree.',
       'Nodes are built directly (the second back-end feeds the same constructor code). Oracle: ref_map() in harness/c14.py. Values are distinct concrete ints so that provenance is identifiable.')
 
+claim('C02',
+      'The real SafeRepresenter + Serializer + Emitter and the real Reader + Scanner + Parser + Composer + SafeConstructor are executed symbolically end to end: a str of one free character over the whole code-point range (2 free characters in the thorough tier) in root / key / value / nested contexts under every default_style, both allow_unicode settings and option cells (canonical, width, indent, line_break); 2-3 character strings over a 34-character alphabet holding one representative of every character class the emitter and scanner distinguish; folding texts over {a, space, LF} with width and depth as solver variables; list/dict graphs with symbolic child pointers (sharing, cycles); bytes through the base64 models; ints; a constant table for floats/dates/sets. The postcondition is type-strict equality (graph isomorphism for containers).',
+      'Py leg only. The symbolic str is injected into the ScalarNode that SafeDumper.represent_data produced for a placeholder, and read back at node level, because a real dict cannot hold a symbolic key. Trusted: CrossHair/z3, models M2/M3/M4e/M8. float text is decided in C08 (language queries). Known finding K4; fixed finding F3.')
+
 NA = {
  'C06': 'every comparison is between two artefacts of libyaml (a compiled system .so behind a Cython binding that cannot be rebuilt offline); symbolic values are realised at the extension boundary, so no solver variable survives into the code under comparison',
  'C20': 'asymptotic growth over input sizes: bounded symbolic execution cannot observe doubling and an unbounded cost argument is proof-assistant work; the anchored look-ahead mechanisms are decided as one-step invariants under C09/C18',
